@@ -121,6 +121,21 @@ def run_policy(ctx, rng, pid):
                 chg.discard(user)
                 if chg:
                     ctx.violation("request answered %d changed %s" % (st, sorted(chg)[:3]), case)
+            # oracle 4: content of an item is shown only with r (GET) / r or w (listings) on its collection
+            if st in (200, 207):
+                colls = {tuple(e["path"]): e for e in dump_before}
+                shown = []
+                if r["method"] == "GET" and st == 200 and "etag_raw" in obs and tuple(r["path"][:-1]) in colls and \
+                        colls[tuple(r["path"][:-1])]["tag"] and tuple(r["path"]) not in colls:
+                    shown.append((tuple(r["path"][:-1]), "r"))
+                for e_ in obs["entries"]:
+                    if e_["type"] == "item" and e_.get("etag_raw"):
+                        shown.append((tuple(e_["path"][:-1]), "rw"))
+                for cp, letters in shown:
+                    perms = table.get((user, cp), default)
+                    if not any(x in perms for x in letters):
+                        ctx.violation("an item of /%s is shown to %r although the policy gives %r there" % ("/".join(cp), user, perms), case)
+                        break
             # oracle 3: what changed is writable for the user
             if st < 300 and user:
                 dump_after = sim.real_dump()
